@@ -160,7 +160,13 @@ def h5_content(path, skip=('metadata',)):
                     out[name] = ('bytes', v.hex())
             else:
                 a = np.ascontiguousarray(v)
-                out[name] = (str(a.dtype), list(a.shape), a.tobytes().hex())
+                if np.issubdtype(a.dtype, np.integer):
+                    # integer datasets are compared by value: the storage width chosen for an index
+                    # array (uint8 ... int64) is not part of the result
+                    a = a.astype(np.int64)
+                    out[name] = ('int', list(a.shape), a.tobytes().hex())
+                else:
+                    out[name] = (str(a.dtype), list(a.shape), a.tobytes().hex())
     with h5py.File(path, 'r') as f:
         f.visititems(visit)
     return out
